@@ -429,7 +429,7 @@ func c13Scripted(r *eng.Run) {
 	case 1:
 		rd.Extensions = []wsutil.RecvExtension{&ms, rsv2Recv{}}
 	case 2:
-		rd.Extensions = []wsutil.RecvExtension{rsv2Recv{}, &ms}
+		rd.Extensions = []wsutil.RecvExtension{wsutil.RecvExtensionFunc(rsv2Recv{}.UnsetBits), &ms} // (through the function adapter)
 	}
 	if other != 0 {
 		clear2 = 2
